@@ -54,6 +54,7 @@ from tealer.teal.instructions.instructions import (
 
 from tealer.teal.instructions.parse_instruction import parse_line, ParseError
 from tealer.teal.instructions.transaction_field import TransactionField, ApplicationID
+from tealer.teal.global_field import GlobalField
 from tealer.teal.instructions.asset_holding_field import AssetHoldingField
 from tealer.teal.instructions.asset_params_field import AssetParamsField
 from tealer.teal.instructions.app_params_field import AppParamsField
@@ -386,6 +387,7 @@ def _verify_version(ins_list: List[Instruction], program_version: int) -> bool:
                 field,
                 (
                     TransactionField,
+                    GlobalField,
                     AssetHoldingField,
                     AssetParamsField,
                     AppParamsField,
